@@ -149,7 +149,7 @@ func runC19(rc *RunCtx) {
 			if err := k.SetParams(base, params); err != nil {
 				continue
 			}
-			k.SetMinterState(base, freshMinterState(harness.T0))
+			k.SetMinterState(base, cfg.freshState(harness.T0))
 			if err := w.App.BankKeeper.MintCoins(base, mtypes.ModuleName, sdk.NewCoins(sdk.NewCoin(c19Denom, mustInt(sup)))); err != nil {
 				panic(err)
 			}
